@@ -715,6 +715,13 @@ class SymExec(object):
                     st.env[n.func.value.id] = ('list', f[1][1] + (args[0],))
                 elif args[0][0] in ('list', 'tuple'):
                     st.env[n.func.value.id] = ('list', f[1][1] + tuple(args[0][1]))
+            if f[0] == 'attr' and f[1][0] == 'alloc' and f[1][1] == 'list' and isinstance(n.func, ast.Attribute):
+                # what a list created empty in this function holds, as long as every change to it is an append we saw
+                cont = st.data.setdefault('contents', {})
+                if f[2] == 'append' and len(args) == 1 and not kws and len(self._guard) <= getattr(self, '_guard_base', 0) and cont.get(f[1], ()) is not None:
+                    cont[f[1]] = tuple(cont.get(f[1], ())) + (args[0],)
+                elif f[2] in _INPLACE:
+                    cont[f[1]] = None
             if f[0] == 'attr' and f[2] in _INPLACE and isinstance(n.func, ast.Attribute) and isinstance(n.func.value, ast.Name) \
                     and f[1][0] in ('listcomp', 'list', 'dictcomp', 'dict', 'setcomp', 'set', 'call', 'mutated') \
                     and st.env.get(n.func.value.id) == f[1] and not (f[1][0] == 'list' and f[2] in ('append', 'extend')):
@@ -1080,6 +1087,45 @@ class SymExec(object):
             return None
         return env
 
+    def iter_items(self, t, st, limit=16):
+        """the items an iteration over term `t` visits, when that is known: displays, constant strings, range(k), zip /
+        reversed / enumerate of known sequences, a list created empty here whose appends were all seen.  Else None."""
+        def go(t):
+            if t[0] in ('tuple', 'list') and not any(x[0] == 'star' for x in t[1]):
+                return list(t[1])
+            if t[0] == 'const' and isinstance(t[1], str):
+                return [('const', ch) for ch in t[1]]
+            if t[0] == 'alloc' and t[1] == 'list':
+                c = st.data.get('contents', {}).get(t)
+                return list(c) if c is not None else None
+            if t[0] == 'call' and t[1][0] == 'name' and not t[3]:
+                fn, a = t[1][1], t[2]
+                if fn == 'range' and 1 <= len(a) <= 2 and all(x[0] == 'const' and isinstance(x[1], int) for x in a):
+                    lo, hi = (0, a[0][1]) if len(a) == 1 else (a[0][1], a[1][1])
+                    return [('const', i) for i in range(lo, hi)] if hi - lo <= limit else None
+                if fn == 'range' and len(a) == 1 and a[0][0] == 'call' and a[0][1] == ('name', 'len') and len(a[0][2]) == 1:
+                    inner = go(a[0][2][0])
+                    return [('const', i) for i in range(len(inner))] if inner is not None else None
+                if fn in ('reversed',) and len(a) == 1:
+                    inner = go(a[0])
+                    return list(reversed(inner)) if inner is not None else None
+                if fn in ('list', 'tuple', 'iter') and len(a) == 1:
+                    return go(a[0])
+                if fn == 'zip' and a:
+                    cols = [go(x) for x in a]
+                    if all(c is not None for c in cols):
+                        return [('tuple', tuple(row)) for row in zip(*cols)]
+                    return None
+                if fn == 'enumerate' and 1 <= len(a) <= 2:
+                    inner = go(a[0])
+                    start = a[1][1] if len(a) == 2 and a[1][0] == 'const' else 0
+                    return [('tuple', (('const', i + start), x)) for i, x in enumerate(inner)] if inner is not None else None
+            return None
+        items = go(t)
+        if items is None or len(items) > limit:
+            return None
+        return items
+
     def inline_expr(self, fd, f, args, kws, st):
         """value of a call of helper `fd` as a term (branches become conditional terms); side effects are appended to the
         caller's event trace.  None when the body uses constructs that cannot be folded into an expression."""
@@ -1112,7 +1158,12 @@ class SymExec(object):
                         return None
                     return ('ifexp', c, a_, b_)
                 if isinstance(s_, ast.Assign):
-                    v = self.ev(s_.value, sub)
+                    if isinstance(s_.value, ast.List) and not s_.value.elts:
+                        self._alloc_seq = getattr(self, '_alloc_seq', 0) + 1
+                        v = ('alloc', 'list', (s_.lineno, 'inl', self._alloc_seq))
+                        st.data.setdefault('contents', {})[v] = ()
+                    else:
+                        v = self.ev(s_.value, sub)
                     for t_ in s_.targets:
                         self.bind(t_, v, sub, s_)
                     continue
@@ -1130,14 +1181,30 @@ class SymExec(object):
                     continue
                 if isinstance(s_, ast.Assert):
                     continue
+                if isinstance(s_, tuple) and s_ and s_[0] == '__bind__':
+                    self.bind(s_[1], s_[2], sub, s_[3])
+                    continue
+                if isinstance(s_, ast.For) and not s_.orelse and not any(isinstance(x, (ast.Break, ast.Continue, ast.Return)) for x in ast.walk(s_)):
+                    items = self.iter_items(self.ev(s_.iter, sub), sub)
+                    if items is None:
+                        return UNSUPPORTED
+                    unrolled = []
+                    for it_ in items:
+                        unrolled.append(('__bind__', s_.target, it_, s_))
+                        unrolled.extend(s_.body)
+                    stmts = unrolled + stmts
+                    continue
                 return UNSUPPORTED
             return ('const', None)
         self._stack.append(fd)
         mark = len(st.events)
+        saved_base = getattr(self, '_guard_base', 0)
+        self._guard_base = len(self._guard)      # what is unconditional inside the helper is so relative to its call
         try:
             r = body(fd.body)
         finally:
             self._stack.pop()
+            self._guard_base = saved_base
         if r is UNSUPPORTED or r is None or _contains(r, UNSUPPORTED):
             del st.events[mark:]
             return None
@@ -1313,6 +1380,8 @@ class SymExec(object):
             if isinstance(s.value, (ast.List, ast.Dict, ast.Set)) and not getattr(s.value, 'elts', None) \
                     and not getattr(s.value, 'keys', None):
                 v = ('alloc', type(s.value).__name__.lower(), s.lineno)   # a fresh empty container
+                if v[1] == 'list':
+                    st.data.setdefault('contents', {})[v] = ()
             else:
                 v = self.ev(s.value, st)
             for t in s.targets:
@@ -1359,10 +1428,11 @@ class SymExec(object):
                         yield r
         elif isinstance(s, ast.For) and self.fold_loops and self._fold_loop(s, st):
             yield st, 'fall'
-        elif isinstance(s, ast.For) and self.fold_loops and _literal_seq(self.ev(s.iter, st.copy())) is not None \
-                and not (len(_literal_seq(self.ev(s.iter, st.copy()))) > 6 and _branches_without_exit(s)):
+        elif isinstance(s, ast.For) and self.fold_loops and self._known_items(s, st) is not None \
+                and not (len(self._known_items(s, st)) > 6 and _branches_without_exit(s)):
             # a loop over a literal table is the sequence of its iterations
-            items = _literal_seq(self.ev(s.iter, st))
+            items = self._known_items(s, st)
+            self.ev(s.iter, st)
             st.events.append(('loop-literal', ('tuple', tuple(items)), s))
             for r in self._unroll_literal(s, items, st, 0):
                 yield r
@@ -1517,6 +1587,17 @@ class SymExec(object):
                             continue
                         for r in self.block(body, st3):
                             yield r
+
+    def _known_items(self, s, st):
+        """items of a loop that runs over a literal table (or a sequence built from literal pieces), else None"""
+        probe = st.copy()
+        t = self.ev(s.iter, probe)
+        lit = _literal_seq(t)
+        if lit is not None:
+            return lit
+        if t[0] == 'call' and t[1][0] == 'name' and t[1][1] in ('zip', 'reversed', 'enumerate', 'range') or (t[0] == 'const' and isinstance(t[1], str)):
+            return self.iter_items(t, probe)
+        return None
 
     def _unroll_literal(self, s, items, st, i):
         if i == len(items):
